@@ -10,6 +10,20 @@ COMMON_NOTE = ("Trusted base: TLC 1.8 evaluating the TLA+ specification in /veri
                "assumption of DESIGN 2.5 for the exhaustive part; simulated / random traces go beyond it.")
 
 CHECKS = {
+ "C10": dict(engine="Hosvd", design="3/C10",
+   text=("Hosvd.tla makes HOSVD a discrete state machine on the class of tensors whose nonzeros pairwise differ in two "
+         "coordinates (diagonal Gram matrices with integer eigenvalues): modes are processed in the given order, the "
+         "rank is the requested one or the smallest r whose discarded eigenvalue sum is <= tol^2 ||X||^2 / d (rational "
+         "tolerance, integer comparisons), sequential truncation drops the cut-off slices.  TLC explores it for every "
+         "tensor of the class in scope x tolerances x both strategies x every mode order and proves the error bound by "
+         "design (discarded energy <= tol^2 ||X||^2, energy split, ranks in range); the real hosvd must return exactly "
+         "the specified leading unit vectors and ranks.  General dense inputs and Tucker-ALS (random / nvecs / given "
+         "starts, exactly low-rank and full-rank cases, truncated runs) are validated by TLC against the observation "
+         "contract: orthonormal factors, core = data x transposed factors, error bound or exact ranks, truthful fit, "
+         "monotone fits, iteration bound, data untouched."),
+   technique="TLA+ exact-arithmetic state machine Hosvd on a decidable input class; TLC exploration (error bound by design) + generation; replay; TLC trace validation of exact results and observation contracts",
+   note=("Numeric observations are recomputed with plain numpy (trusted, in harness/c10.py); the exact class excludes "
+         "eigenvalue ties; general inputs use tolerance 1e-6.")),
  "C09": dict(engine="CpAls", design="3/C09",
    text=("CpAls.tla is the control skeleton of the alternating least-squares fit observed through the data tensor's "
          "kernel: Start / Kernel(n, factor identities) / Return(observations) / Truncated(k).  TLC model-checks it "
